@@ -152,7 +152,9 @@ class CodeFormatter:
             self.black_mode: black.FileMode
         else:
             self.black_mode = black.FileMode(
-                target_versions={BLACK_PYTHON_VERSION[python_version]},
+                target_versions=(
+                    {BLACK_PYTHON_VERSION[python_version]} if is_supported_in_black(python_version) else set()
+                ),
                 line_length=config.get("line-length", black.DEFAULT_LINE_LENGTH),
                 string_normalization=not skip_string_normalization or not config.get("skip-string-normalization", True),
                 **black_kwargs,
